@@ -513,6 +513,9 @@ def wellformed(case, allow_foreign_ids=False):
                 cls.check_schema(doc)
             except impl.exceptions.SchemaError:
                 return False, "document-rejected-by-check_schema"
+            except Exception as e:
+                # not a judgement about the document: the implementation could not even apply its metaschema
+                return False, "check_schema-raises:%s" % type(e).__name__
         for u in case["docs"]:
             if case["via"].get(u) not in ("store", "store#", "handler", "missing"):
                 return False, "malformed-world"
